@@ -325,6 +325,10 @@ def run(ctx, repo):
                     iv, jv = g.target.elts[0].id, g.target.elts[1].id
                     good = (isinstance(e0, ast.Attribute) and e0.attr == 'ranking_key' and isinstance(e0.value, ast.Name) and e0.value.id == jv
                             and isinstance(e1, ast.Name) and e1.id == iv)
+    if not good and 'key' in kw and isinstance(kw['key'], ast.Lambda) and isinstance(kw['key'].body, ast.Attribute) and kw['key'].body.attr == 'ranking_key' \
+            and isinstance(kw['key'].body.value, ast.Name) and kw['key'].body.value.id == kw['key'].args.args[0].arg and isinstance(s.func.value, ast.Name):
+        # list.sort is stable: sorting on the key alone keeps equal keys in their previous order, which is what the second component says
+        good = True
     if good and 'reverse' not in kw:
         ctx.ok('R2', 'sort key is (ranking_key, previous position), ascending')
     else:
@@ -485,13 +489,30 @@ def run(ctx, repo):
     if pl is None:
         raise AnalysisError('anchor vanished: Jumper.place')
     hides = False
+    folded_place = None
+    try:
+        from .. import fold as _fold
+        okp = True
+        for hci, plc in ((-1, 1), (-1, 3), (0, 1), (2, 4)):
+            me_ = _fold.ObjConst({'highest_cleared_index': hci, '_place': plc, 'highest_cleared': 0, 'order': 1, 'bib': 'A'})
+            try:
+                out_ = None
+                for st_ in pl.body:
+                    _fold.Folder().stmt(st_, {pl.args.args[0].arg: me_})
+            except _fold._Return as r_:
+                out_ = r_.v
+            if out_ != ('' if hci < 0 else plc):
+                okp = False
+        folded_place = okp
+    except Exception:
+        folded_place = None
     for n in ast.walk(pl):
         if isinstance(n, ast.If) and isinstance(n.test, ast.Compare) and 'highest_cleared_index' in ast.unparse(n.test.left) \
                 and isinstance(n.test.ops[0], ast.Lt) and ast.unparse(n.test.comparators[0]) == '0':
             if any(isinstance(r, ast.Return) and isinstance(r.value, ast.Constant) and r.value.value == '' for r in n.body):
                 hides = True
     final = [st for st in pl.body if isinstance(st, ast.Return)]
-    if hides and final and ast.unparse(final[-1].value) == 'self._place':
+    if folded_place is True or (folded_place is None and hides and final and ast.unparse(final[-1].value) == 'self._place'):
         ctx.ok('R2', "place: '' without a clearance, else _place")
     else:
         ctx.finding('R2', '%s::Jumper.place::hides unplaced athletes' % HJ, HJ, pl.lineno,
